@@ -1165,7 +1165,10 @@ def run(ctx, out):
                 'instantiated, one instance document cross-loaded) or one shipped .ecore file (load, re-save, load); '
                 'distinct_nontrivial counts distinct metamodel descriptions actually generated',
         'samples': samples,
-        'traces_validated_against_impl': rows,
+        'traces_validated_against_impl': rows + exercised_pairs,
+        'traces_rule': 'table rows and class rows compared with the live reflection of pyecore.ecore, plus the signature '
+                       'features whose predicted written/not-written status was confronted with what save/reload did to '
+                       'non-default values',
         'table_rows_checked_against_live_ecore': rows,
         'signature_nodes_compared': stats.get('sig_nodes', 0),
         'signature_features_exercised_with_non_default_value': exercised_pairs,
